@@ -201,7 +201,7 @@ def r11_3(ctx, rr):
     geometry_rule(ctx, rr, with_c=True)
 
 
-@rule("R16.6", props=["C16", "C07", "C12", "C08"], floor=4, title="the number of first segments l is sized from the largest shard and clamped to at least 1 (third vertex inside the l + 2 segments)", configs=("default", "mwhc"))
+@rule("R16.6", props=["C16", "C07", "C12", "C08"], floor=4, title="the number of first segments l is sized from the largest shard and clamped to at least 1 (third vertex inside the l + 2 segments)", configs=("default", "mwhc!"))
 def r16_6(ctx, rr):
     geometry_rule(ctx, rr, with_c=False)
 
@@ -271,6 +271,12 @@ def geometry_rule(ctx, rr, with_c):
             elif "seg_size" in assigns:
                 st, node = assigns["seg_size"][0]
                 s_ = strip_casts(st)
+                # at least one cell per segment: `.max(1)` as the last step (an empty key set gives ceil(0) = 0)
+                ok_min = s_[0] == "op" and s_[1] == "max" and ("int", 1) in (s_[2], s_[3])
+                rr.check(ok_min, "%s:seg_size>=1" % nm, "%s: seg_size must be clamped to at least 1 (`... .max(1)`): with no keys ceil(c * 0 / 3) = 0, the three vertices of every edge coincide and lie outside the empty backend; found %s" % (ref, tshow(s_)[:160]), F.loc(node))
+                if ok_min:
+                    s_ = strip_casts(s_[3] if s_[2] == ("int", 1) else s_[2])
+                rr.instances += 1
                 ok = s_[0] == "call" and s_[1].endswith("ceil") and mentions(s_, lambda x: x == size_var or x == ("cast", "f64", size_var)) and mentions(s_, lambda x: x == ("float", "3.") or x == ("float", "3.0") or x == ("int", 3))
                 rr.check(ok, "%s:seg_size-formula" % nm, "%s: seg_size must be ceil(c * %s / 3); found %s" % (ref, size_var[1], tshow(s_)[:200]), F.loc(node))
             else:
